@@ -77,6 +77,9 @@ def p_c01(tier):
     # response formatting with the capacity swept through every alignment (a value fits, the separator does not, ...): one result code per line
     sh += sw_shards("bounds", "C01", tier, 8, "--family", "format", tagp="format-align")
     sh.append(failing_events("lines-failing-events", 1, "C01", "C01"))
+    for cap in (6, 8, 10):
+        sh.append(mcx("lines-ubuf0-cap%d" % cap, prop="C01", table="+W:W;+U:U||+u:vu1ro;+E:vu1ro", cap=cap, shared=0, ubuf=0, name_alpha="+WUX", max_name=2, args_alpha="1", max_args=1, suffix_mask=5, lines=2, crlf=0,
+                      refuse_read=0, refuse_write=1, codes_W="OK,ERROR", codes_U="OK", max_inv=1, ev="+u:R,+E:R", act="trigger", trig_budget=2, mon="C01"))
     sh += sw_shards("tables", "C01", tier, 3, "--family", "firstbyte", tagp="firstbyte")
     # the command list (several units, then the closing result code) while unsolicited events are triggered, flushed and refused around it
     sh += [s for s in c11_shards(tier, prop="C01", mon="C01") if s["tag"].endswith("-run")]
@@ -328,6 +331,8 @@ def c13_shards(tier, prop="C13", mon="C13"):
     for ring in (1, 2):
         sh.append(mcx("queue-reinit-r%d" % ring, ring=ring, prop=prop, table=T_Q, cap=12, shared=ring % 2, gen_mode="none", refuse_write=1,
                       ecodes_R="OK,DATA_OK,DATA_NEXT", ecodes_T="OK", max_inv=1, tok=1, ev="+a:R,+b:R,+d:R", act="trigger,queries,reinit", trig_budget=3, mon=mon))
+    sh.append(mcx("queue-bounded-r1-emptytok", ring=1, prop=prop, table=T_Q, cap=12, shared=1, name_alpha="HK", max_name=1, args_alpha="1", max_args=0, suffix_mask=1, lines=1,
+                  refuse_read=1, refuse_write=1, codes_U="OK", ecodes_R="DATA_NEXT,DATA_OK,OK", ecodes_T="DATA_NEXT,DATA_OK", max_inv=2, tok=2, ev="+b:R,+c:T,+a:R", act="trigger,queries", trig_budget=2, mon=mon))
     # a (non-re-entrant) mutex configured: handlers ask the unprotected queries while cat_service holds the lock
     sh.append(mcx("queue-bounded-r2-mutex", ring=2, prop=prop, table=T_Q, cap=12, shared=0, name_alpha="HK", max_name=1, args_alpha="1", max_args=0, suffix_mask=5, lines=1,
                   refuse_read=1, refuse_write=1, codes_W="HOLD,OK", codes_U="OK", ecodes_R="OK,DATA_OK", ecodes_T="OK", max_inv=1, tok=1,
@@ -423,6 +428,9 @@ def p_c15(tier):
         if "cap6-sh0-l2d1" in s["tag"] or "free" in s["tag"]:
             a = list(s["args"]); a[a.index("--mon") + 1] = "C15"; a[a.index("--prop") + 1] = "C15"
             sh.append({"tag": "live-" + s["tag"], "bin": s["bin"], "args": a + ["--liveness", "1"]})
+    for rr in (2, 3):
+        sh.append(mcx("live-noread%d" % rr, prop="C15", table=T_AMBIG, cap=6, name_alpha="+TABZ", args_alpha="1", max_name=3, max_args=2, D=0, lines=2, crlf=1, blank=1,
+                      refuse_read=rr, refuse_write=1, codes_W="OK,ERROR", codes_R="OK,DATA_OK", codes_U="OK", codes_T="OK", max_inv=1, mon="C15", liveness=1))
     # command lists and responses at exact / one-short capacities, long names: the eager driver reports a parser that never becomes quiescent
     sh += sw_shards("describe", "C15", tier, 8, "--family", "shapes", "--pairs", 1, tagp="shapes")
     sh += sw_shards("bounds", "C15", tier, 4, "--family", "names", tagp="names")
@@ -451,6 +459,8 @@ def c16_shards(tier):
     sh.append(duplex("mutex-run-r1-2obj", 1, 0, 1, "C16", "C16",
                      extra=dict(mutex=1, faults=1, h_trigger=0, act="trigger,hold", suffix_mask=3, ev="+u:R,+h:R", crlf=0, max_name=2, interfere=2,
                                 ecodes_R="OK,DATA_OK", ecodes_T="OK", codes_T="OK", codes_R="OK,DATA_OK")))
+    sh.append(mcx("mutex-implicit-event", ring=2, prop="C16", table="+S:R,vu1rw;D:W,i,vu1rw;Z:U||+u:vu1ro", cap=20, shared=0, name_alpha="+SZD", max_name=2, args_alpha="1", max_args=1, suffix_mask=3, lines=1,
+                  refuse_read=1, refuse_write=1, codes_R="OK,DATA_OK", codes_U="OK", codes_W="OK", max_inv=1, ev="D:T,D:R,+u:R", act="trigger,queries", trig_budget=2, mutex=1, faults=1, mon="C16"))
     # lock()/unlock() failing with -1, 256, 65536, INT_MIN, 2 instead of 1 (any non-zero value is a failure)
     for fv in FAIL_VALUES:
       sh.append(duplex("mutex-run-r1-fail%d" % fv, 1, 0, 2, "C16", "C16",
@@ -479,6 +489,9 @@ def p_c18(tier):
         if "cap6-sh0-l2d1" in s["tag"]:
             a = list(s["args"]); a[a.index("--mon") + 1] = "C18"; a[a.index("--prop") + 1] = "C18"
             sh.append({"tag": "busy-" + s["tag"], "bin": s["bin"], "args": a})
+    for rr in (2, 3):
+        sh.append(mcx("busy-noread%d" % rr, prop="C18", table=T_AMBIG, cap=6, name_alpha="+TABZ", args_alpha="1", max_name=3, max_args=2, D=0, lines=2, crlf=1, blank=1,
+                      refuse_read=rr, refuse_write=1, codes_W="OK,ERROR", codes_R="OK,DATA_OK", codes_U="OK", codes_T="OK", max_inv=1, mon="C18"))
     # every byte value at the start of a line and between lines, busy / idle probed after every call
     sh += sw_shards("tables", "C18", tier, 3, "--family", "firstbyte", tagp="firstbyte")
     return {"shards": sh, "require": ["busy_ok_checked", "busy_busy", "hold_yes", "units_evt"],
@@ -642,6 +655,7 @@ def p_c04(tier):
     # digit counts at and around 2^8, 2^9, 2^16 and 2^17 (counters narrower than the buffer capacity)
     sh += sw_shards("numeric", "C04", tier, 12, "--family", "huge", tagp="huge")
     sh += sw_shards("numeric", "C04", tier, 4, "--family", "bytes", tagp="bytes")
+    sh += sw_shards("numeric", "C04", tier, 3, "--family", "capfit", tagp="capfit")
     # implicit-write command with numeric variables: the argument text is everything after the name ('=' included)
     sh += sw_shards("numeric", "C04", tier, 12, "--family", "implicit", "--maxlen", 4 if quick else 5, tagp="implicit")
     return {"shards": sh, "require": ["runs", "wvar_ok", "wvar_err"],
@@ -782,6 +796,7 @@ def p_c03(tier):
     sh += sw_shards("args", "C03", tier, 36, "--lite", 1 if quick else 0, asan=True, tagp="asan-args")
     sh += sw_shards("buffers", "C03", tier, 8, "--family", "residue", asan=True, tagp="asan-residue")
     sh += sw_shards("buffers", "C03", tier, 4, "--family", "capfit", asan=True, tagp="asan-capfit")
+    sh += sw_shards("numeric", "C03", tier, 3, "--family", "capfit", asan=True, tagp="asan-numeric-capfit")
     sh += sw_shards("numeric", "C03", tier, 16, "--family", "bounds", asan=True, tagp="asan-numeric")
     sh += sw_shards("numeric", "C03", tier, 14, "--family", "all", "--maxlen", 4 if quick else 5, asan=True, tagp="asan-numeric")
     sh += sw_shards("describe", "C03", tier, 8, "--family", "vars", "--maxlen", 2, asan=True, tagp="asan-describe")
